@@ -168,6 +168,10 @@ def run_l1(ctx, res):
                             note="every fg pid terminates exactly once; the status must be the one of the last "
                                  "stage (pid %d) whatever the termination order, and exactly the schedule is consumed"
                                  % pids[-1])
+        if len(pids) > 1 and order[0] == len(pids) - 1 and meta["terms"][-1][0] == 1:
+            # the LAST stage is killed by a signal and is the FIRST to terminate: the wait must go on until every
+            # other member is settled, the status is 128 + that signal
+            res.extra["wait_last_signaled_first"] = res.extra.get("wait_last_signaled_first", 0) + 1
         if order[-1] != len(pids) - 1:
             n_nonlast += 1
             res.nontrivial("wait:" + a + " n=%d order=%s" % (len(pids), ",".join(str(i) for i in order)))
